@@ -128,8 +128,8 @@ CHECKS = {
    text="The real Matcher (Match, match, matchNodeAST, matchAST, Binding/Or/Not/List/String/Token/Nil/Any, set/push/pop/merge; package reflect modelled by the engine) is executed on 17 patterns nesting Or, Not, List and "
         "Binding with repeated names and up to 34 (thorough 63) names, in both spellings, against 19 expression shapes with symbolic identifier names, literal values and operators; patterns are parsed by the real parser "
         "(natively, every run) and rebuilt as Go values including the unexported binding index. Oracle: a purely functional reference matcher; asserted: equal verdict, exactly the bindings of the successful path, "
-        "structurally equal subtrees for repeated names, and equality of the x@p and (Binding \"x\" p) spellings.",
-   note="Bounded to the listed patterns and tree shapes (leaves symbolic). Nodes needing type information (Symbol, Object, Builtin, IntegerLiteral, TrulyConstantExpression) and statement-level nodes are outside. "
+        "structurally equal subtrees for repeated names, and equality of the x@p and (Binding \"x\" p) spellings; 6 patterns with Builtin / Object against 7 call expressions type-checked by the real go/types inside the engine.",
+   note="Bounded to the listed patterns and tree shapes (leaves symbolic). Symbol is exercised under C08; IntegerLiteral, TrulyConstantExpression and statement-level nodes are outside. "
         "The package initialiser's MustParse is given an empty body in the symbolic run (only IntegerLiteral uses its result).",
    technique="bounded symbolic execution of go/ssa (reflect modelled) + SMT against a functional reference matcher, native replay",
    design="3/C09"),
